@@ -481,6 +481,13 @@ pub fn auto_record(seed: u64, runs: u64, target: usize, path: &str) -> Value {
                 }
             }
         }
+        if seed % 4 == 0 && (3..8).contains(&k) {
+            // ill-formed sequences that LOOK complete (a lead byte followed by the right number of continuation bytes: surrogates,
+            // overlong forms, beyond U+10FFFF) behind printable text, under random cuts: whether the bytes arrive in one call or
+            // split at / inside the sequence, the same bytes come out
+            choice = "Never";
+            input = b"dir\\\xed\xa0\x80 x\xe0\x80\x80y\xf0\x80\x80\x80z\xf4\x90\x80\x80w\xed\xbf\xbf!\xe0\x9f\xbf?\xc0\xaf.\n".to_vec();
+        }
         bytes += input.len() as u64;
         let profile = r.below(3);
         let mut script = Vec::new();
